@@ -31,6 +31,7 @@ type Opts struct {
 	Created string `json:"created"`
 	Cons    string `json:"cons"`
 	Xdel    bool   `json:"xdel"`
+	Zones   bool   `json:"zones"`
 }
 
 // Gen is one generated case.
@@ -41,6 +42,7 @@ type Gen struct {
 	Slots  []int        `json:"slots"`
 	Opts   Opts         `json:"opts"`
 	VTimes [][2]int     `json:"vtimes"` // value id v (1-based) is a time iff v > 10: seconds, nanos relative to world.Epoch
+	VZones []int        `json:"vzones"` // minutes east of UTC in which value v spells its instant (0 = "Z")
 	Cons   string       `json:"cons"`
 	TagVal int          `json:"tagval"`
 	Sorts  []string     `json:"sorts"`
@@ -157,7 +159,12 @@ func values(g *Gen) []string {
 			vs[i] = "x"
 		case v > 10:
 			t := world.Epoch.Add(time.Duration(g.VTimes[i][0])*time.Second + time.Duration(g.VTimes[i][1]))
-			vs[i] = t.UTC().Format(time.RFC3339Nano)
+			t = t.UTC()
+			if i < len(g.VZones) && g.VZones[i] != 0 {
+				// the same instant, written with another UTC offset: time.Parse gives it a fresh Location
+				t = t.In(time.FixedZone("", g.VZones[i]*60))
+			}
+			vs[i] = t.Format(time.RFC3339Nano)
 		default:
 			vs[i] = fmt.Sprintf("v%d", v)
 		}
@@ -276,7 +283,7 @@ func runWorld(s *world.Signers, wi int, g *Gen) error {
 	if err != nil {
 		return err
 	}
-	emit(Ev{"ev": "world", "w": wi, "cls": g.Cls, "tagval": g.TagVal, "items": w.Items, "vtimes": g.VTimes})
+	emit(Ev{"ev": "world", "w": wi, "cls": g.Cls, "tagval": g.TagVal, "items": w.Items, "vtimes": g.VTimes, "vzones": g.VZones, "zones": g.Opts.Zones})
 	owner := index.NewOwner(s.KeyID[1], s.PubRef[1])
 	live, err := idx.NewMem(true)
 	if err != nil {
@@ -309,10 +316,10 @@ func randomGen(rng *rand.Rand, i, total, maxn int) Gen {
 	if i == 0 {
 		n = maxn
 	}
-	classes := []string{"normal", "allequal", "pre1970", "span1970", "subsec", "presub", "mixed"}
-	cls := classes[(i+int(rng.Int31n(7)))%7]
-	if i < 7 {
-		cls = classes[(i+2)%7] // the first (largest) world is pre-1970
+	classes := []string{"normal", "allequal", "pre1970", "span1970", "subsec", "presub", "mixed", "zoned"}
+	cls := classes[(i+int(rng.Int31n(8)))%8]
+	if i < 8 {
+		cls = classes[(i+2)%8] // the first (largest) world is pre-1970
 	}
 	k := []int{1, 2, 3, 5, 1 + n/10}[rng.Intn(5)]
 	if cls == "allequal" {
@@ -320,7 +327,7 @@ func randomGen(rng *rand.Rand, i, total, maxn int) Gen {
 	}
 	slotTime := func(s int) [2]int {
 		switch cls {
-		case "normal":
+		case "normal", "zoned":
 			return [2]int{100 * s, 0}
 		case "allequal":
 			return [2]int{100, 0}
@@ -338,10 +345,19 @@ func randomGen(rng *rand.Rand, i, total, maxn int) Gen {
 	}
 	g := Gen{N: n, Cls: cls, TagVal: 2, Sorts: []string{"created", "mod"}, Leg: "T-random"}
 	g.Cons = []string{"any", "tag", "and"}[rng.Intn(3)]
-	g.Opts = Opts{Cons: g.Cons, Created: []string{"same", "dc"}[rng.Intn(2)]}
-	g.VTimes = make([][2]int, 10+k)
-	for s := 1; s <= k; s++ {
-		g.VTimes[10+s-1] = slotTime(s)
+	g.Opts = Opts{Cons: g.Cons, Created: []string{"same", "dc"}[rng.Intn(2)], Zones: cls == "zoned" || rng.Intn(5) < 2}
+	if cls == "zoned" {
+		g.Opts.Created = "dc"
+	}
+	// value id 10 + z*k + s spells the instant of slot s with UTC offset zoneOff[z]
+	zoneOff := []int{0, 120, 330, -570}
+	g.VTimes = make([][2]int, 10+len(zoneOff)*k)
+	g.VZones = make([]int, len(g.VTimes))
+	for z := range zoneOff {
+		for s := 1; s <= k; s++ {
+			g.VTimes[10+z*k+s-1] = slotTime(s)
+			g.VZones[10+z*k+s-1] = zoneOff[z]
+		}
 	}
 	its := []world.Item{{ID: 1, Kind: "key", Signer: 1}, {ID: 2, Kind: "key", Signer: 2}}
 	for p := 0; p < n; p++ {
@@ -361,7 +377,7 @@ func randomGen(rng *rand.Rand, i, total, maxn int) Gen {
 			untagged = append(untagged, pn)
 		}
 		if g.Opts.Created == "dc" {
-			its = append(its, world.Item{ID: len(its) + 1, Kind: "claim", Claim: "set", PN: pn, Attr: "dateCreated", Val: 10 + 1 + rng.Intn(k), Date: t[0], Nano: t[1], Signer: 1})
+			its = append(its, world.Item{ID: len(its) + 1, Kind: "claim", Claim: "set", PN: pn, Attr: "dateCreated", Val: 10 + zoneOf(rng, g.Opts.Zones, len(zoneOff))*k + 1 + rng.Intn(k), Date: t[0], Nano: t[1], Signer: 1})
 		}
 		if rng.Intn(25) == 0 {
 			its = append(its, world.Item{ID: len(its) + 1, Kind: "delete", Target: pn, Date: t[0] + 5, Signer: 1})
@@ -386,6 +402,13 @@ func randomGen(rng *rand.Rand, i, total, maxn int) Gen {
 	pick(untagged, 2)
 	pick(deleted, 1)
 	return g
+}
+
+func zoneOf(rng *rand.Rand, zones bool, n int) int {
+	if !zones {
+		return 0
+	}
+	return rng.Intn(n)
 }
 
 func sortInts(a []int) {
